@@ -106,6 +106,19 @@ pub fn family(cfg: &Cfg) -> Vec<Src> {
     for e in al::e1(if cfg.quick() { 1 } else { 2 }) {
         out.push(Src::Ast(e));
     }
+    {
+        // E_syn: every combination of 2 (quick) / 2..4 (thorough) day-selector kinds, where the
+        // printing of one kind depends on its neighbour (`2030-2030/3` + `Nov-Feb`), with two bodies
+        let ts = al::times();
+        let ms = al::modifiers();
+        for ds in al::day_selectors(if cfg.quick() { 2 } else { 4 }) {
+            let kinds = [!ds.year.is_empty(), !ds.monthday.is_empty(), !ds.week.is_empty(), !ds.weekday.is_empty()].iter().filter(|x| **x).count();
+            if kinds >= 2 {
+                out.push(Src::Ast(expr(vec![al::mk_rule(&ds, &ts[0], &ms[0])])));
+                out.push(Src::Ast(expr(vec![al::mk_rule(&ds, &ts[1], &ms[4])])));
+            }
+        }
+    }
     let r2 = al::r2();
     let n2 = al::e2_count();
     let stride = if cfg.quick() { 53 } else { 1 };
@@ -128,7 +141,7 @@ pub fn family(cfg: &Cfg) -> Vec<Src> {
         out.push(Src::Ast(expr(vec![r.clone(), al::mk_rule(&DaySelector::default(), &al::times()[2], &al::modifiers()[3])])));
     }
     // time span with a repetition step, event offsets
-    for s in ["10:00-12:00/30", "10:00-16:00/01:30", "(sunrise+00:30)-sunset", "(dawn-02:30)-(dusk+02:30)", "PH +1 day", "PH -2 days", "2030-2030/3", "week 05-05/2", "Mo[1-5] +1 day", "Mo[-1] -3 days", "Jun 07+Tu", "easter -2 days-easter +1 day", "10:00+", "dusk-dusk+", "Jun24:00+", "\"x\":Mo 10:00-12:00 \"y\""] {
+    for s in ["10:00-12:00/30", "10:00-16:00/01:30", "(sunrise+00:30)-sunset", "(dawn-02:30)-(dusk+02:30)", "PH +1 day", "PH -2 days", "2030-2030/3", "week 05-05/2", "Mo[1-5] +1 day", "Mo[1-5,-1,-2,-3,-4,-5] +1 day", "Mo[-1] -3 days", "Jan open, easter closed", "2020 easter+", "2030-2030/3Nov-Feb", "Jun 07+Tu", "easter -2 days-easter +1 day", "10:00+", "dusk-dusk+", "Jun24:00+", "\"x\":Mo 10:00-12:00 \"y\""] {
         out.push(Src::Text(s.to_string()));
     }
     for s in al::corpus(&cfg.repo) {
